@@ -178,6 +178,9 @@ func BuildCases(r *rand.Rand, p *core.Program, cfg Config) (in *Inputs, cases []
 		t := p.Bundle[p.Entry]
 		t.Body = append(t.Body, core.CPrint(core.EFn("vmax2", core.EInt(r.Intn(3)), core.EInt(1))))
 	}
+	for _, t := range sortedTmpls(p) {
+		vary(r, t.Body)
+	}
 	st := core.Style{Parens: r.Intn(2), Tight: r.Intn(3) == 0}
 	files := core.UnparseProgram(p, st)
 
@@ -209,6 +212,80 @@ func BuildCases(r *rand.Rand, p *core.Program, cfg Config) (in *Inputs, cases []
 	}
 	ops = append(ops, Op{Op: "evalexpr"})
 	return
+}
+
+func sortedTmpls(p *core.Program) []*core.Tmpl {
+	var names []string
+	for n := range p.Bundle {
+		names = append(names, n)
+	}
+	sort.Strings(names)
+	var ts []*core.Tmpl
+	for _, n := range names {
+		ts = append(ts, p.Bundle[n])
+	}
+	return ts
+}
+
+// directive lists that mix the marker directives (id, noAutoescape) with
+// others before and after them, and the directives that add markup
+var dirMixes = [][]core.Cmd{
+	{core.CDir("noAutoescape"), core.CDir("truncate", core.EInt(30))},
+	{core.CDir("truncate", core.EInt(5)), core.CDir("id")},
+	{core.CDir("changeNewlineToBr")},
+	{core.CDir("insertWordBreaks", core.EInt(3)), core.CDir("noAutoescape")},
+	{core.CDir("id"), core.CDir("escapeUri")},
+	{core.CDir("escapeHtml"), core.CDir("noAutoescape"), core.CDir("truncate", core.EInt(4), core.EBool(false))},
+}
+
+// vary rewrites, in place and with the seeded source, parts of a generated
+// program towards what history dependence feeds on:
+//   - a {call data="$m"} gets a data expression that is NOT a plain reference
+//     but evaluates to the same map of the caller ($m ?: $m, true ? $m : $m),
+//     so that the explicit params of the call sit next to a caller-owned map;
+//   - a print gets one of dirMixes.
+// The language semantics of the program is unchanged for the first kind and
+// defined by SoyDirectives for the second.
+func vary(r *rand.Rand, cmds []core.Cmd) {
+	for _, c := range cmds {
+		switch c["k"] {
+		case "call":
+			if c["data"] == "expr" {
+				de := c["de"].(core.E)
+				switch r.Intn(3) {
+				case 0:
+					c["de"] = core.EBin("elvis", de, de)
+				case 1:
+					c["de"] = core.ETern(core.EBool(true), de, de)
+				}
+			}
+		case "print":
+			if r.Intn(4) == 0 {
+				c["dirs"] = dirMixes[r.Intn(len(dirMixes))]
+			}
+		}
+		for _, key := range []string{"body", "params"} {
+			if b, ok := c[key].([]core.Cmd); ok {
+				vary(r, b)
+			}
+		}
+		for _, key := range []string{"brs", "cases"} {
+			if b, ok := c[key].([]core.Cmd); ok {
+				for _, x := range b {
+					if bb, ok := x["body"].([]core.Cmd); ok {
+						vary(r, bb)
+					}
+				}
+			}
+		}
+		for _, key := range []string{"els", "def", "empty"} {
+			if o, ok := c[key].(core.Cmd); ok {
+				if bb, ok := o["body"].([]core.Cmd); ok {
+					vary(r, bb)
+				}
+			}
+		}
+	}
 }
 
 // plan is one generated bundle with its render cases and a history over it.
